@@ -111,3 +111,21 @@ def c18(ctx, t0):
     return finish(ctx, 'exploration', res, COMMON_ASSUME + [
         'parameter values whose memory demand exceeds 256 MiB or whose run time is unbounded (scrypt cost 20..31, argon2id time/length near 2^32) are not generated: their outcome depends on the host',
         'duplicate parameter-set ids are not mentioned by the property and are left unasserted'], floors, t0)
+
+
+def ovl_stage(ctx, name, test, timeout, race=True, extra_env=None):
+    b = ctx.build_ovl(race=race)
+    return ctx.run_child(name, [b, '-test.run', '^%s$' % test, '-test.timeout', '0', '-test.count', '1'], timeout, race=race, extra_env=extra_env)
+
+
+@plan('C07')
+def c07(ctx, t0):
+    res = []
+    if want(ctx, 'tokens'):
+        res.append(ovl_stage(ctx, 'tokens', 'TestVerifC07', T(ctx, 600, 3000)))
+    floors = {'presented': (counters(res, 'presented'), 5000), 'nonces_checked': (counters(res, 'nonces_checked'), 100000),
+              'chosen_plaintexts': (counters(res, 'chosen_plaintexts'), 20), 'accepted': (counters(res, 'accepted'), 20)}
+    return finish(ctx, 'exploration', res, COMMON_ASSUME + [
+        'unforgeability is tested against the enumerated mutation classes; this is not a cryptographic argument about AES-GCM',
+        'time-window cases sit >= 3 s from the boundary and are re-run when the clock bracket around them exceeds 1 s',
+        'the base64 text layer is not part of the claim: acceptance is judged on the decoded (nonce, ciphertext) under a lenient decoder'], floors, t0)
